@@ -13,6 +13,14 @@
 (*   ins k v | rem k | remx k (RemoveExisting) | commit | reopen |         *)
 (*   onew (NewOverlay on top) | ocommit (Overlay.Commit) | oclose          *)
 (*   (discard) | ocopy (continue on Overlay.Copy(nil))                     *)
+(*   ofork (Overlay.Copy(nil) with BOTH objects kept: the stack continues  *)
+(*   on one of them, the other one is the fork) | fins k v | frem k        *)
+(*   (writes to the fork).  st.fork = <<>> or [d, m]: the overlay depth at *)
+(*   which the fork was taken and the fork's own view.  The two objects    *)
+(*   are independent ordered maps over the same inner tree: a write to one *)
+(*   is not seen through the other.  The fork is given up when the overlay *)
+(*   it was copied from is committed or discarded (its inner tree changes  *)
+(*   under it only then).                                                  *)
 (* Reads (Get of every key, Iterator Seek+Next from every seek position)   *)
 (* are not separate steps: their expected answers are attached to every    *)
 (* emitted operation and the harness performs them after the operation.    *)
@@ -67,6 +75,10 @@ Enabled(s) ==
     \cup (IF base THEN {Op("commit", <<>>, <<>>), Op("reopen", <<>>, <<>>)} ELSE {})
     \cup (IF Len(s.ovl) < MaxOvl THEN {Op("onew", <<>>, <<>>)} ELSE {})
     \cup (IF ~base THEN {Op("ocommit", <<>>, <<>>), Op("oclose", <<>>, <<>>), Op("ocopy", <<>>, <<>>)} ELSE {})
+    \cup (IF ~base /\ s.fork = <<>> THEN {Op("ofork", <<>>, <<>>)} ELSE {})
+    \cup (IF s.fork # <<>> THEN {Op("fins", k, v) : k \in Keys, v \in Vals} \cup {Op("frem", k, <<>>) : k \in Keys} ELSE {})
+
+DropFork(s, s2) == IF s.fork # <<>> /\ Len(s.ovl) = s.fork.d THEN [s2 EXCEPT !.fork = <<>>] ELSE s2
 
 Step(s, op) ==
     LET base == s.ovl = <<>> IN
@@ -79,11 +91,14 @@ Step(s, op) ==
       [] op.a = "commit" -> [s EXCEPT !.ctree = s.tree]
       [] op.a = "reopen" -> [s EXCEPT !.tree = s.ctree]
       [] op.a = "onew" -> [s EXCEPT !.ovl = Append(s.ovl, Top(s))]
-      [] op.a = "ocommit" ->
+      [] op.a = "ocommit" -> DropFork(s,
             IF Len(s.ovl) = 1 THEN [s EXCEPT !.tree = Canon(Top(s)), !.ovl = <<>>]
-            ELSE [s EXCEPT !.ovl = [SubSeq(s.ovl, 1, Len(s.ovl) - 1) EXCEPT ![Len(s.ovl) - 1] = Top(s)]]
-      [] op.a = "oclose" -> [s EXCEPT !.ovl = SubSeq(s.ovl, 1, Len(s.ovl) - 1)]
+            ELSE [s EXCEPT !.ovl = [SubSeq(s.ovl, 1, Len(s.ovl) - 1) EXCEPT ![Len(s.ovl) - 1] = Top(s)]])
+      [] op.a = "oclose" -> DropFork(s, [s EXCEPT !.ovl = SubSeq(s.ovl, 1, Len(s.ovl) - 1)])
       [] op.a = "ocopy" -> s
+      [] op.a = "ofork" -> [s EXCEPT !.fork = [d |-> Len(s.ovl), m |-> Top(s)]]
+      [] op.a = "fins" -> [s EXCEPT !.fork.m = Put(s.fork.m, op.k, op.v)]
+      [] op.a = "frem" -> [s EXCEPT !.fork.m = Del(s.fork.m, op.k)]
 
 (* the value returned by the call itself *)
 Ret(s, op) ==
@@ -100,10 +115,12 @@ Obs(s, op, s2) ==
      view |-> Pairs(Top(s2)),
      iters |-> LET sk == SetToSortSeq(AllSeeks, Lt) IN [i \in DOMAIN sk |-> [seek |-> sk[i], items |-> IterFrom(Top(s2), sk[i])]],
      shape |-> s2.tree,
-     depth |-> PathDepth(s2.tree)]
+     depth |-> PathDepth(s2.tree),
+     fork |-> s2.fork # <<>>,
+     fview |-> IF s2.fork # <<>> THEN Pairs(s2.fork.m) ELSE <<>>]
 
 Init ==
-    /\ st = [tree |-> Nil, ctree |-> Nil, ovl |-> <<>>]
+    /\ st = [tree |-> Nil, ctree |-> Nil, ovl |-> <<>>, fork |-> <<>>]
     /\ hist = <<>>
 
 Next ==
@@ -125,7 +142,7 @@ Observe(s, h, acc) ==
     IF h = <<>> THEN acc
     ELSE LET s2 == Step(s, Head(h)) IN Observe(s2, Tail(h), Append(acc, Obs(s, Head(h), s2)))
 
-Behaviour == Observe([tree |-> Nil, ctree |-> Nil, ovl |-> <<>>], hist, <<>>)
+Behaviour == Observe([tree |-> Nil, ctree |-> Nil, ovl |-> <<>>, fork |-> <<>>], hist, <<>>)
 
 EmitInv == (hist # <<>>) => PrintT(ToJson([ops |-> Behaviour]))
 
@@ -156,5 +173,9 @@ StepLemmas ==
           /\ (op.a = "oclose" => Top(s2) = Top([st EXCEPT !.ovl = SubSeq(st.ovl, 1, Len(st.ovl) - 1)]))
           /\ (op.a = "ins" => Top(s2) = Put(Top(st), op.k, op.v))
           /\ (op.a \in {"rem", "remx"} => Top(s2) = Del(Top(st), op.k))
+          \* the two objects of a fork are independent
+          /\ (op.a \in {"ofork", "fins", "frem"} => Top(s2) = Top(st) /\ s2.tree = st.tree /\ s2.ovl = st.ovl)
+          /\ (op.a = "ofork" => s2.fork.m = Top(st))
+          /\ (op.a \in {"ins", "rem", "remx", "onew", "ocopy"} => s2.fork = st.fork)
       ]_vars
 =============================================================================
